@@ -249,7 +249,7 @@ class SyncedList(SyncedCollection, MutableSequence):
             self._data.remove(self._from_base(data=value, parent=self))
 
     def clear(self):  # noqa: D102
-        self._data = []
+        self._data.clear()
         with self._thread_lock:
             self._save()
 
